@@ -47,9 +47,11 @@ def bind_call_args(func, args, kwargs):
 
 
 def _clause_env(bound, ghosts, extra):
-    env = dict(bound)
+    env = dict(extra)
+    if 'result' in extra:
+        env['ret'] = extra['result']      # the return value is `ret` when a parameter is itself called `result`
     env.update(ghosts)
-    env.update(extra)
+    env.update(bound)
     return env
 
 
@@ -73,6 +75,8 @@ def apply_contract(interp, c, func, args, kwargs):
     old = None
     if c.old is not None:
         old = _call_pred(interp, c.old, env)
+    if c.event is not None:
+        st.emit(c.event, dict(bound))
     # exceptional outcomes
     outcomes = ['return']
     for exc_cls, spec in c.raises.items():
